@@ -3,6 +3,9 @@ package engine
 
 import (
 	"fmt"
+	"go/ast"
+	goparser "go/parser"
+	"go/token"
 	"go/types"
 	"os"
 	"path/filepath"
@@ -50,10 +53,82 @@ func Overlay(verifDir string) (map[string][]byte, error) {
 		if err != nil {
 			return err
 		}
-		ov[dst] = b
+		ov[dst] = expandShim(b, filepath.Join(RepoDir, filepath.Dir(rel)))
 		return nil
 	})
 	return ov, err
+}
+
+// expandShim replaces the directive `/*verif:mapfields <recv> <Struct>*/ nil` in a shim by the list
+// `<recv>.<f1>, <recv>.<f2>, ...` of all map-typed fields of struct <Struct>, read from the CURRENT
+// source of the package: a shim that names fields literally stops compiling when a field is renamed
+// or replaced, and the check would end undecided instead of examining the changed code.
+func expandShim(b []byte, pkgDir string) []byte {
+	src := string(b)
+	for {
+		i := strings.Index(src, "/*verif:mapfields ")
+		if i < 0 {
+			return []byte(src)
+		}
+		j := strings.Index(src[i:], "*/")
+		if j < 0 {
+			return []byte(src)
+		}
+		args := strings.Fields(src[i+len("/*verif:mapfields ") : i+j])
+		end := i + j + 2
+		if rest := strings.TrimLeft(src[end:], " "); strings.HasPrefix(rest, "nil") {
+			end = len(src) - len(rest) + 3
+		}
+		list := "nil"
+		if len(args) == 2 {
+			if fs := mapFields(pkgDir, args[1]); len(fs) > 0 {
+				for k := range fs {
+					fs[k] = args[0] + "." + fs[k]
+				}
+				list = strings.Join(fs, ", ")
+			}
+		}
+		src = src[:i] + list + src[end:]
+	}
+}
+
+// mapFields lists the names of the map-typed fields of struct typeName declared in pkgDir.
+func mapFields(pkgDir, typeName string) []string {
+	ents, err := os.ReadDir(pkgDir)
+	if err != nil {
+		return nil
+	}
+	var out []string
+	fset := token.NewFileSet()
+	for _, e := range ents {
+		n := e.Name()
+		if e.IsDir() || !strings.HasSuffix(n, ".go") || strings.HasSuffix(n, "_test.go") {
+			continue
+		}
+		f, err := goparser.ParseFile(fset, filepath.Join(pkgDir, n), nil, goparser.SkipObjectResolution)
+		if err != nil {
+			continue
+		}
+		ast.Inspect(f, func(nd ast.Node) bool {
+			ts, ok := nd.(*ast.TypeSpec)
+			if !ok || ts.Name.Name != typeName {
+				return true
+			}
+			st, ok := ts.Type.(*ast.StructType)
+			if !ok {
+				return false
+			}
+			for _, fld := range st.Fields.List {
+				if _, isMap := fld.Type.(*ast.MapType); isMap {
+					for _, nm := range fld.Names {
+						out = append(out, nm.Name)
+					}
+				}
+			}
+			return false
+		})
+	}
+	return out
 }
 
 // initAllow is the allow-list of packages whose init functions are executed.
